@@ -175,7 +175,7 @@ func c01Run(x *core.Ctx) {
 	}
 	for _, b := range bombs {
 		for _, sz := range bigSizes {
-			for _, lim := range []int{1, 2, 10, 1000, 15000, 100000} {
+			for _, lim := range []int{1, 2, 10, 1000, 15000, 100000, -1} { // a negative limit admits no token at all
 				bi++
 				if bi%x.NShards != x.Shard {
 					continue
@@ -330,7 +330,7 @@ func c01Bomb(x *core.Ctx, s string, lim int) {
 	x.Count("bombs")
 	x.Nontrivial()
 	nb := int64(len(s))
-	if lim > 0 {
+	if lim != 0 {
 		// recursion must be bounded by the limit, not by the input: a small stack makes
 		// unbounded recursion a fatal exit of this worker.
 		debug.SetMaxStack(64 << 20)
@@ -341,6 +341,8 @@ func c01Bomb(x *core.Ctx, s string, lim int) {
 		verifhook.Budget = 64*(nb+1) + 2*(nb+2) + 64
 		if lim > 0 {
 			verifhook.Budget = 64*int64(lim+2) + 4096
+		} else if lim < 0 {
+			verifhook.Budget = 4096
 		}
 		verifhook.Mode = verifhook.ModeCount
 		source := &ast.Source{Name: "bomb.graphql", Input: s}
@@ -361,7 +363,7 @@ func c01Bomb(x *core.Ctx, s string, lim int) {
 		if err != nil && strings.HasPrefix(err.Error(), "exceeded token limit") {
 			x.Count("limit_errors")
 		}
-		if lim > 0 {
+		if lim != 0 {
 			// bytes scanned must be bounded by what the first lim+2 tokens need
 			x.Max("bomb_limited_lexer_reads", verifhook.Counts[verifhook.SiteLexRead])
 		}
